@@ -180,7 +180,7 @@ def pmap(func, items, procs=16, chunksize=None):
     if len(items) < 8 or procs <= 1:
         return [func(x) for x in items]
     ctx = mp.get_context('fork')
-    with ctx.Pool(procs) as pool:
+    with ctx.Pool(procs, maxtasksperchild=1) as pool:     # a fresh worker per chunk: no pfst state leaks between chunks
         return pool.map(func, items, chunksize or max(1, len(items) // (procs * 8)))
 
 
